@@ -125,7 +125,6 @@ func sweepFont(f *sfnt.Font) {
 		}
 	}
 	sweepCmapTable(f.CMapTable)
-	f.MakeGlyphNames()
 	f.Write(io.Discard)
 	if f.IsGlyf() {
 		f.WriteTrueTypePDF(io.Discard)
